@@ -2,7 +2,7 @@
 
     Every place where src/lru/raw.rs calls user code is a [tick]: hashing and comparing keys inside
     the hash map ([THash]: BuildHasher, Hash and Eq; consecutive calls with no store in between
-    are one tick), the eviction callback ([TCb]), dropping a key or a value ([TDrop]).  A fuse
+    are one tick), the eviction callback ([TCb]), dropping a key ([TDropK]) or a value ([TDropV]).  A fuse
     selects one tick; when it is reached the operation stops with [FPanic h q], the heap and the
     list descriptor at that moment — what unwinding leaves behind, since nothing the library holds
     by raw pointer has a destructor.  [unwrap()] on [None] is a panic too.  [FErr] is a memory error
@@ -33,9 +33,9 @@ Definition lift {A} (h : heap) (q : hlru) (r : hres A) : fres A :=
   | HErr e => FErr e
   end.
 
-Inductive tclass := THash | TCb | TDrop.
+Inductive tclass := THash | TCb | TDropK | TDropV.
 Definition tclass_eqb (a b : tclass) : bool :=
-  match a, b with THash, THash | TCb, TCb | TDrop, TDrop => true | _, _ => false end.
+  match a, b with THash, THash | TCb, TCb | TDropK, TDropK | TDropV, TDropV => true | _, _ => false end.
 
 (** [Some (c, n)]: the n-th tick of class [c] from now on panics *)
 Definition fuse := option (tclass * nat).
@@ -56,9 +56,12 @@ Definition tick_insert (f : fuse) (h : heap) (q : hlru) : fres fuse :=
   | _ => FOk f
   end.
 
-(** [map.get] *)
+(** [map.get] / [get_mut] / [contains_key]: an empty table is answered without hashing *)
+Definition tick_find (f : fuse) (h : heap) (q : hlru) : fres fuse :=
+  match hidx q with [] => FOk f | _ :: _ => tick THash f h q end.
+
 Definition f_find (f : fuse) (h : heap) (q : hlru) (k : key) : fres (fuse * option addr) :=
-  fdo f1 <- tick THash f h q;
+  fdo f1 <- tick_find f h q;
   fdo r <- lift h q (idx_find h (hidx q) k);
   FOk (f1, r).
 
@@ -68,7 +71,7 @@ Definition f_put (f : fuse) (h : heap) (q : hlru) (k : key) (v : val) : fres (fu
   match r with
   | Some n =>
     fdo (h1, old) <- lift h q (h_update h q n v);
-    fdo f2 <- tick TDrop f1 h1 q;                       (* the key passed in is dropped on return *)
+    fdo f2 <- tick TDropK f1 h1 q;                      (* the key passed in is dropped on return *)
     FOk (f2, h1, q, PUpdate old)
   | None =>
     if Nat.eqb (hcap q) 0 then FOk (f1, h, q, PEvicted k v)
@@ -142,7 +145,7 @@ Definition f_remove (f : fuse) (h : heap) (q : hlru) (k : key) : fres (fuse * he
     fdo (_, v) <- lift h1 q1 (take_kv h1 n);
     fdo h2 <- lift h1 q1 (hfree h1 n);
     fdo f2 <- tick TCb f1 h2 q1;
-    fdo f3 <- tick TDrop f2 h2 q1;
+    fdo f3 <- tick TDropK f2 h2 q1;
     FOk (f3, h2, q1, Some v)
   end.
 
@@ -164,37 +167,42 @@ Definition f_remove_lru (f : fuse) (h : heap) (q : hlru) : fres (fuse * heap * h
       FOk (f2, h2, q1, Some e)
     end.
 
-(** [purge]: [while self.remove_lru().is_some() {}]; each pair handed back is dropped at once *)
-Fixpoint f_purge_loop (fuel : nat) (f : fuse) (h : heap) (q : hlru) : fres (fuse * heap * hlru) :=
+(** [purge]: [while self.remove_lru().is_some() {}]; each pair handed back is dropped at once.
+    The entries removed are returned in order (the callback log of the call). *)
+Fixpoint f_purge_loop (fuel : nat) (f : fuse) (h : heap) (q : hlru) (acc : list entry)
+  : fres (fuse * heap * hlru * list entry) :=
   match fuel with
   | O => FErr EUnwrap                 (* out of fuel: excluded by the theorems *)
   | S n =>
     fdo (f1, h1, q1, r) <- f_remove_lru f h q;
     match r with
-    | None => FOk (f1, h1, q1)
-    | Some _ => fdo f2 <- tick TDrop f1 h1 q1; f_purge_loop n f2 h1 q1
+    | None => FOk (f1, h1, q1, acc)
+    | Some e => fdo f2 <- tick TDropK f1 h1 q1; fdo f3 <- tick TDropV f2 h1 q1; f_purge_loop n f3 h1 q1 (acc ++ [e])
     end
   end.
-Definition f_purge (f : fuse) (h : heap) (q : hlru) : fres (fuse * heap * hlru) :=
-  f_purge_loop (S (length (hidx q))) f h q.
+Definition f_purge (f : fuse) (h : heap) (q : hlru) : fres (fuse * heap * hlru * list entry) :=
+  f_purge_loop (S (length (hidx q))) f h q [].
 
 (** [resize]: [while self.map.len() > cap { self.remove_lru(); }] — bounded here by the index length;
     see [resize_may_spin] in FaultFacts.v for what the bound hides after a fault *)
-Fixpoint f_resize_loop (fuel : nat) (f : fuse) (h : heap) (q : hlru) (c : nat) : fres (fuse * heap * hlru) :=
+Fixpoint f_resize_loop (fuel : nat) (f : fuse) (h : heap) (q : hlru) (c : nat) (acc : list entry)
+  : fres (fuse * heap * hlru * list entry) :=
   match fuel with
-  | O => FOk (f, h, q)
+  | O => FOk (f, h, q, acc)
   | S n =>
     if Nat.ltb c (length (hidx q)) then
       fdo (f1, h1, q1, r) <- f_remove_lru f h q;
-      fdo f2 <- (match r with Some _ => tick TDrop f1 h1 q1 | None => FOk f1 end);
-      f_resize_loop n f2 h1 q1 c
-    else FOk (f, h, q)
+      fdo f2 <- (match r with Some _ => tick TDropK f1 h1 q1 | None => FOk f1 end);
+      fdo f3 <- (match r with Some _ => tick TDropV f2 h1 q1 | None => FOk f2 end);
+      f_resize_loop n f3 h1 q1 c (acc ++ match r with Some e => [e] | None => [] end)
+    else FOk (f, h, q, acc)
   end.
-Definition f_resize (f : fuse) (h : heap) (q : hlru) (c : nat) : fres (fuse * heap * hlru) :=
-  if Nat.eqb c (hcap q) then FOk (f, h, q)
+Definition f_resize (f : fuse) (h : heap) (q : hlru) (c : nat) : fres (fuse * heap * hlru * list entry) :=
+  if Nat.eqb c (hcap q) then FOk (f, h, q, [])
   else
-    fdo (f1, h1, q1) <- f_resize_loop (length (hidx q)) f h q c;
-    FOk (f1, h1, mkHlru (hhead q1) (htail q1) (hidx q1) c).
+    fdo (f1, h1, q1, acc) <- f_resize_loop (length (hidx q)) f h q c [];
+    fdo f2 <- tick_insert f1 h1 q1;        (* map.shrink_to_fit() may rehash; self.cap is set afterwards *)
+    FOk (f2, h1, mkHlru (hhead q1) (htail q1) (hidx q1) c, acc).
 
 (** the operations that reach a node through [head] / [tail] call no user code *)
 Definition f_nouser {A} (h : heap) (q : hlru) (r : hres A) : fres A := lift h q r.
@@ -202,16 +210,19 @@ Definition f_nouser {A} (h : heap) (q : hlru) (r : hres A) : fres A := lift h q 
 (** [peek_or_put] / [peek_mut_or_put] / [contains_or_put] *)
 Definition f_peek_mut_or_put (f : fuse) (h : heap) (q : hlru) (k : key) (v : val) (w : option val)
   : fres (fuse * heap * hlru * option val * option put_result) :=
-  fdo (f1, h1, r) <- f_peek_mut f h q k w;
+  fdo (f1, r) <- f_find f h q k;
   match r with
-  | Some x => fdo f2 <- tick TDrop f1 h1 q; FOk (f2, h1, q, Some x, None)    (* k and v are dropped *)
-  | None => fdo (f2, h2, q2, pr) <- f_put f1 h1 q k v; FOk (f2, h2, q2, None, Some pr)
+  | Some n =>
+    fdo f2 <- tick TDropV f1 h q; fdo f3 <- tick TDropK f2 h q;      (* v and k are dropped on return *)
+    fdo (h1, e) <- lift h q (h_write h n w);                         (* the caller writes through the reference *)
+    FOk (f3, h1, q, Some (snd e), None)
+  | None => fdo (f2, h2, q2, pr) <- f_put f1 h q k v; FOk (f2, h2, q2, None, Some pr)
   end.
 
 Definition f_contains_or_put (f : fuse) (h : heap) (q : hlru) (k : key) (v : val)
   : fres (fuse * heap * hlru * bool * option put_result) :=
   fdo (f1, b) <- f_contains f h q k;
-  if b then fdo f2 <- tick TDrop f1 h q; FOk (f2, h, q, true, None)
+  if b then fdo f2 <- tick TDropV f1 h q; fdo f3 <- tick TDropK f2 h q; FOk (f3, h, q, true, None)
   else fdo (f2, h2, q2, pr) <- f_put f1 h q k v; FOk (f2, h2, q2, false, Some pr).
 
 (** one step, same operations and outputs as [hstep] *)
@@ -222,8 +233,8 @@ Definition fstep (f : fuse) (h : heap) (q : hlru) (o : hop) : fres (fuse * heap 
   | HPeek k => fdo (f1, r) <- f_peek f h q k; FOk (f1, h, q, OVal r)
   | HRemove k => fdo (f1, h1, q1, r) <- f_remove f h q k; FOk (f1, h1, q1, OVal r)
   | HRemoveLru => fdo (f1, h1, q1, r) <- f_remove_lru f h q; FOk (f1, h1, q1, OEnt r)
-  | HPurge => fdo (f1, h1, q1) <- f_purge f h q; FOk (f1, h1, q1, OUnit)
-  | HResize c => fdo (f1, h1, q1) <- f_resize f h q c; FOk (f1, h1, q1, OUnit)
+  | HPurge => fdo (f1, h1, q1, _) <- f_purge f h q; FOk (f1, h1, q1, OUnit)
+  | HResize c => fdo (f1, h1, q1, _) <- f_resize f h q c; FOk (f1, h1, q1, OUnit)
   | HPeekMut k w => fdo (f1, h1, r) <- f_peek_mut f h q k w; FOk (f1, h1, q, OVal r)
   | HContains k => fdo (f1, b) <- f_contains f h q k; FOk (f1, h, q, OBool b)
   | HGetLru w => fdo (h1, r) <- f_nouser h q (h_get_lru h q w); FOk (f, h1, q, OEnt r)
@@ -241,8 +252,9 @@ Fixpoint f_drop_nodes (f : fuse) (h : heap) (q : hlru) (i : list (addr * addr)) 
   | (_, n) :: rest =>
     fdo _ <- lift h q (take_kv h n);
     fdo h1 <- lift h q (hfree h n);
-    fdo f1 <- tick TDrop f h1 q;
-    f_drop_nodes f1 h1 q rest
+    fdo f1 <- tick TDropK f h1 q;
+    fdo f2 <- tick TDropV f1 h1 q;
+    f_drop_nodes f2 h1 q rest
   end.
 Definition f_drop (f : fuse) (h : heap) (q : hlru) : fres heap :=
   fdo (f1, h1) <- f_drop_nodes f h q (hidx q);
